@@ -147,8 +147,8 @@ func vC12RecFrom(v *AVCDecoderConfigurationRecord) vC12Rec {
 func vC12IsoRecord(ver, prof, compat, level, lsm1 int, sps, pps [][]byte) []byte {
 	var b []byte
 	b = append(b, byte(ver), byte(prof), byte(compat), byte(level))
-	b = append(b, byte(63*4+lsm1))
-	b = append(b, byte(7*32+len(sps)))
+	b = append(b, byte(63*4+lsm1%4))
+	b = append(b, byte(7*32+len(sps)%32))
 	for _, s := range sps {
 		b = append(b, byte(len(s)/256), byte(len(s)%256))
 		b = append(b, s...)
@@ -622,6 +622,21 @@ func vC12Run(c vSx) (r vC12Res) {
 // ---------- generators ----------
 var vC12Sizes = []int{1, 2, 3, 254, 255, 256, 257, 65534, 65535}
 
+// bytes the random generators may still spend on NAL units larger than 1000 bytes (keeps the
+// quick tier's case file small; the boundary sizes are covered by the deterministic part)
+var vC12Budget = 0
+
+func vC12Spend(n int) bool {
+	if n <= 1000 {
+		return true
+	}
+	if vC12Budget < n {
+		return false
+	}
+	vC12Budget -= n
+	return true
+}
+
 func vC12GenNALU(rnd *vRng, maxTotal int, big bool) vC12N {
 	n := vC12N{ref: rnd.intn(4), typ: rnd.intn(32)}
 	var total int
@@ -641,6 +656,9 @@ func vC12GenNALU(rnd *vRng, maxTotal int, big bool) vC12N {
 	}
 	if total > maxTotal {
 		total = maxTotal
+	}
+	if !vC12Spend(total) {
+		total = rnd.rng(1, 255)
 	}
 	n.data = rnd.bytes(total - 1)
 	return n
@@ -720,7 +738,7 @@ func vC12Gen(rnd *vRng) vSx {
 		big := 1
 		for i := 0; i < cnt; i++ {
 			n := vC12GenNALU(rnd, max, big > 0)
-			if rnd.chance(1, 20) && max > 65535 {
+			if rnd.chance(1, 20) && max > 65535 && vC12Spend(66000) {
 				n.data = rnd.bytes(rnd.pickInt(65535, 65536, 66000) - 1)
 			}
 			if len(n.data) > 1000 {
@@ -784,7 +802,9 @@ func vC12Gen(rnd *vRng) vSx {
 		case 3:
 			rec.prof = rnd.pickInt(578, 2158, 2170, 2192)
 		case 4:
-			rec.sps = append(rec.sps, vC12N{ref: 3, typ: 7, data: rnd.bytes(rnd.pickInt(65535, 65536, 65600))})
+			if vC12Spend(65600) {
+				rec.sps = append(rec.sps, vC12N{ref: 3, typ: 7, data: rnd.bytes(rnd.pickInt(65535, 65536, 65600))})
+			}
 		case 5:
 			if len(rec.sps) > 0 {
 				rec.sps[0].ref, rec.sps[0].typ = rnd.intn(256), rnd.intn(256)
@@ -917,6 +937,10 @@ func TestVerifC12(t *testing.T) {
 	}
 	for _, v := range []int{578, 2158, 2170, 2192, 65535} {
 		runOne(vL(vZ(9), vI(v)))
+	}
+	vC12Budget = 1500000
+	if k.thorough() {
+		vC12Budget = 40000000
 	}
 	for i := 0; i < k.N(2500, 40000); i++ {
 		runOne(vC12Gen(k.rnd))
